@@ -487,6 +487,19 @@ def own_write_announced_history():
         n = draw(st.integers(1, 3))
         per = draw(st.lists(st.sampled_from(['ok', 'ok', 'temp', 'perm']), min_size=n, max_size=n))
         outcome = draw(st.sampled_from([OK, OK, T, {'shape': 'map', 'per': per, 'replies': [0]}]))
+        if draw(st.integers(0, 2)) == 0:
+            # the store publishes the write just before write() returns: enqueue() claims the message first and the schedule
+            # entry made from the announcement is consumed while that first attempt is under way
+            cfg['announce_on_write'] = True
+            cfg['backoff'] = [5]
+            acts = [['enqueue', {'n': n, 'sender': True, 'body': ''}], ['release_kind', 'write', 0], ['release_kind', 'write_done', 0],
+                    ['release_kind', 'get', 0], ['release_kind', 'get_done', 0], ['tick'],
+                    ['release_kind', 'relay', 0, draw(st.sampled_from([T, T, {'shape': 'map', 'per': per, 'replies': [0]}]))]]
+            for k_ in draw(st.lists(st.sampled_from(['remove', 'increment_attempts', 'set_timestamp', 'set_recipients_delivered']), max_size=4)):
+                acts.append(['release_kind', k_, 0])
+            tail = draw(st.lists(st.one_of(st.just(['storage']), st.just(['answer', OK]), st.just(['tick']),
+                                           st.integers(0, 3).map(lambda i: ['release', i, OK])), max_size=8))
+            return cfg, acts + tail
         acts = [['enqueue', {'n': n, 'sender': True, 'body': ''}],
                 ['release_kind', 'write', 0],           # stored (and announced by the store); enqueue() still waits for the id
                 ['announce', 0],
